@@ -16,7 +16,7 @@
 
 from fractions import Fraction
 from collections import OrderedDict
-from typing import List, Optional, FrozenSet, Union, cast
+from typing import List, Optional, FrozenSet, Set, Union, cast
 import unified_planning as up
 import unified_planning.environment
 from unified_planning.exceptions import UPUnreachableCodeError
@@ -212,6 +212,10 @@ class Simplifier(walkers.dag.DagWalker):
                             and variable.variable()
                             not in fvo.get_free_variables(value)
                             and variable.type.is_compatible(value.type)
+                            # x must not be captured by a quantifier nested in phi
+                            and fvo.get_free_variables(value).isdisjoint(
+                                self._quantified_variables(new_arg)
+                            )
                         ):
                             check_equality_simplification = True
                             new_arg = self.manager.And(
@@ -229,6 +233,20 @@ class Simplifier(walkers.dag.DagWalker):
             return self.manager.Exists(new_arg, *vars)
         else:
             return new_arg
+
+    @staticmethod
+    def _quantified_variables(
+        expression: FNode,
+    ) -> Set["up.model.variable.Variable"]:
+        """Returns the variables bound by some quantifier inside the given expression."""
+        res: Set["up.model.variable.Variable"] = set()
+        stack = [expression]
+        while stack:
+            e = stack.pop()
+            if e.is_exists() or e.is_forall():
+                res.update(e.variables())
+            stack.extend(e.args)
+        return res
 
     def _nested_walk(self, expression: FNode) -> FNode:
         """Simplifies `expression` from inside a walk_* method: the pending work of the
